@@ -26,6 +26,7 @@ import (
 type rq struct {
 	release chan int
 	fell    int32
+	done    chan struct{} // closed when ServeHTTP has returned
 }
 
 type key struct{}
@@ -62,15 +63,14 @@ func main() {
 		var wg sync.WaitGroup
 		// arrive: returns the request if it was passed on (it is then blocked inside the handler), nil if the fallback answered
 		arrive := func() *rq {
-			q := &rq{release: make(chan int, 1)}
+			q := &rq{release: make(chan int, 1), done: make(chan struct{})}
 			req := httptest.NewRequest(http.MethodGet, "http://example.com/", nil)
 			req = req.WithContext(context.WithValue(req.Context(), key{}, q))
-			done := make(chan struct{})
 			wg.Add(1)
 			go func() {
 				defer wg.Done()
 				cb.ServeHTTP(httptest.NewRecorder(), req)
-				close(done)
+				close(q.done)
 			}()
 			select {
 			case e := <-entered:
@@ -78,7 +78,7 @@ func main() {
 					panic("another request entered")
 				}
 				return q
-			case <-done:
+			case <-q.done:
 				return nil
 			}
 		}
@@ -150,27 +150,19 @@ func main() {
 			case q := <-entered:
 				inflight = append(inflight, q)
 			case <-fell:
-			case <-time.After(5 * time.Second):
-				fail("round %d: a racing arrival reached no handler within 5s", round)
+			case <-time.After(60 * time.Second):
+				fail("round %d: a racing arrival reached no handler within 60s", round)
 				decided = *racers
 			}
 		}
-		// the admitted request's ServeHTTP may still be inside checkAndSet: wait for the trip to be visible or for it to return
-		deadline := time.Now().Add(2 * time.Second)
-		for !strings.Contains(cb.String(), "tripped") && time.Now().Before(deadline) {
-			// requests passed on during the race keep the WaitGroup busy: poll the state instead
-			runtime.Gosched()
-			if strings.Contains(cb.String(), "tripped") {
-				break
-			}
-			time.Sleep(20 * time.Microsecond)
-			if !strings.Contains(cb.String(), "recovering") {
-				break
-			}
+		// the admitted request's ServeHTTP has returned: its Record and checkAndSet (the trip) are done
+		select {
+		case <-admitted.done:
+		case <-time.After(60 * time.Second):
+			fail("round %d: the completing request did not return within 60s", round)
 		}
 		races++
 		// 5. the fallback period has just begun
-		time.Sleep(50 * time.Microsecond)
 		if s := cb.String(); !strings.Contains(s, "tripped") {
 			fail("round %d: an admitted request completed with a network error during the recovery (the breaker trips again) while %d requests were arriving; afterwards the breaker reads %s, not tripped", round, *racers, s)
 		}
